@@ -125,6 +125,13 @@ class NaiveForecaster(_OptionalForecastingHorizonMixin, _BaseWindowForecaster):
             self.window_length_ = check_window_length(self.window_length)
             if self.window_length is None:
                 self.window_length_ = len(y)
+                if self.window_length_ == 1:
+                    # no line through a single point (forecasts would silently
+                    # be nan)
+                    raise ValueError(
+                        "For the `drift` strategy, the training series must "
+                        "contain at least two observations."
+                    )
             if self.window_length == 1:
                 raise ValueError(
                     f"For the `drift` strategy, "
